@@ -21,11 +21,11 @@ import (
 
 type Clause struct {
 	CaseType ast.Expr // "case T:" prefix: the clause speaks about the type-switch case T only
-	Label string
-	Text  string
-	Expr  ast.Expr
-	Props []string
-	Line  string // file:line of the clause
+	Label    string
+	Text     string
+	Expr     ast.Expr
+	Props    []string
+	Line     string // file:line of the clause
 }
 
 type LoopContract struct {
@@ -396,6 +396,23 @@ func (e *Engine) parseContractFile(file, pkg string) error {
 					curLoop.At = strings.TrimSpace(rest)
 				}
 			}
+		case "typeinv":
+			// typeinv pkg.Type v: expr   (v is a non-nil *pkg.Type)
+			i := strings.Index(rest, ":")
+			if i < 0 {
+				return fmt.Errorf("%s: bad typeinv", where)
+			}
+			hd := strings.Fields(rest[:i])
+			if len(hd) != 2 {
+				return fmt.Errorf("%s: bad typeinv header", where)
+			}
+			ti := &CellInv{Comp: hd[0], Var: hd[1], Pkg: pkg}
+			c := &Clause{Line: where, Label: "typeinv." + hd[0]}
+			p := &pending{c: c, raw: rest[i+1:], kind: "typeinv"}
+			pend = append(pend, p)
+			lastRaw = &p.raw
+			ti.Expr = c
+			e.typeinvs = append(e.typeinvs, ti)
 		case "cellinv":
 			// cellinv COMP v: expr
 			i := strings.Index(rest, ":")
